@@ -105,6 +105,24 @@ func (e Engine) Pool() []Op {
 		add(Op{"nfa", p})
 		add(Op{"regex_dfa", p})
 	}
+	// generated patterns (atoms, bracket groups, quantifiers, one-edit mutations: many are rejected
+	// in different ways, some with more than one problem at once)
+	for i := 0; i < 60; i++ {
+		p, _ := gen.GenPattern(simrt.NewTape(simrt.Mix(171717, uint64(i))))
+		if len(p) > 0 && len(p) < 24 && !strings.Contains(p, "{20}") {
+			add(Op{"nfa", p})
+			if i%3 == 0 {
+				add(Op{"regex_dfa", p})
+			}
+		}
+	}
+	for _, p := range []string{"[9-0", "a{4,2}(", "[z-a][", "x{3,1}|(", "[a-z]+", "[b-a]"} {
+		add(Op{"nfa", p})
+		add(Op{"regex_dfa", p})
+	}
+	for i := 0; i < 6; i++ {
+		add(Op{"spec_dfa", gen.GenMultiDiag(simrt.NewTape(simrt.Mix(1715, uint64(i))))})
+	}
 	return pool
 }
 
@@ -444,6 +462,13 @@ func (e Engine) Run(t *simrt.Tape, c simrt.Case, x *simrt.Ctx) *simrt.Result {
 	}
 	pool := e.Pool()
 	logBefore := e.raceLogSize()
+	// half of the cases concentrate on one family of operations (shared state is per package)
+	switch t.Draw(4) {
+	case 0:
+		pool = filterPool(pool, "nfa", "regex_dfa")
+	case 1:
+		pool = filterPool(pool, "spec", "spec_dfa", "spec_lalr", "ast")
+	}
 
 	checkRaces := func(note string) bool {
 		b, err := os.ReadFile(e.raceLogPath())
@@ -457,9 +482,9 @@ func (e Engine) Run(t *simrt.Tape, c simrt.Case, x *simrt.Ctx) *simrt.Result {
 				continue
 			}
 			class, known := classify(x, r)
-			res.Count("race_reports", 1)
+			res.Volatile["race_reports"]++
 			if known != "" {
-				res.Known[known]++
+				res.Volatile["known:"+known]++
 				continue
 			}
 			x.Tracef("%s", r.text)
@@ -584,6 +609,18 @@ func (e Engine) Run(t *simrt.Tape, c simrt.Case, x *simrt.Ctx) *simrt.Result {
 		}
 	}
 	return res
+}
+
+func filterPool(pool []Op, kinds ...string) []Op {
+	var out []Op
+	for _, o := range pool {
+		for _, k := range kinds {
+			if o.Kind == k {
+				out = append(out, o)
+			}
+		}
+	}
+	return out
 }
 
 func rle(s []byte) string {
